@@ -49,6 +49,17 @@ def graph_snap(g):
             tuple((k, e.eid, tuple(e.nids), tuple(e.opics)) for k, e in g.edges.items()), tuple(g.nid_terminal))
 
 
+def graph_parts(g):
+    """identities of the mutable parts of an operator graph"""
+    ids = set()
+    for n in g.nodes.values():
+        ids |= {id(n), id(n.eids[0]), id(n.eids[1])}
+    for e in g.edges.values():
+        ids |= {id(e), id(e.nids), id(e.opics)}
+    ids.add(id(g.nid_terminal))
+    return ids
+
+
 def call_cases(rng):
     """yield (name, callable, args) for one random operand set"""
     import pytenet as ptn
@@ -88,6 +99,27 @@ def call_cases(rng):
         yield 'split_mps_tensor', lambda T, a, b, c, e, distr=distr: ptn.split_mps_tensor(T, a, b, [c, e], distr, 0.05), [T, qd0, qd0, qD0, qD2]
     yield 'merge_mps_tensor_pair', ptn.merge_mps_tensor_pair, [psi.A[0], psi.A[0].transpose(0, 2, 1).copy() if L == 1 else psi.A[1]]
     yield 'from_vector', lambda v: ptn.MPS.from_vector(2, 3, v, 0.01), [rng.standard_normal(8)]
+    # operator graphs: `add` overwrites self, must leave `other` untouched and unshared (also when all ids are disjoint)
+    from .. import oglib
+    try:
+        rawA, LA, ch = oglib.gen_layered_graph(rng, L=int(rng.integers(1, 4)), idbase=0)
+        rawB, _, _ = oglib.gen_layered_graph(rng, L=LA, idbase=0, charged=ch)
+        mode = int(rng.integers(0, 3))
+        if mode >= 1:   # disjoint node ids
+            sh = 40
+            rawB = {'nodes': [[n[0] + sh, n[1], n[2], n[3]] for n in rawB['nodes']],
+                    'edges': [[e[0], [e[1][0] + sh, e[1][1] + sh], e[2]] for e in rawB['edges']], 'term': [t + sh for t in rawB['term']]}
+        if mode == 2:   # disjoint edge ids as well
+            sh = 500
+            rawB = {'nodes': [[n[0], [x + sh for x in n[1]], [x + sh for x in n[2]], n[3]] for n in rawB['nodes']],
+                    'edges': [[e[0] + sh, e[1], e[2]] for e in rawB['edges']], 'term': rawB['term']}
+        gA, gB = oglib.build_graph(rawA), oglib.build_graph(rawB)
+        if all(gA.nodes[gA.nid_terminal[k]].qnum == gB.nodes[gB.nid_terminal[k]].qnum for k in (0, 1)):
+            yield 'OpGraph.add', lambda a, b: a.add(b), [gA, gB]
+        yield 'OpGraph.as_matrix', lambda a: a.as_matrix({i: np.identity(2) * (i + 1) for i in range(-1, 12)}), [gA]
+        yield 'MPO.from_opgraph', lambda a: ptn.MPO.from_opgraph([0, 0], a, {i: np.identity(2) * (i + 1) for i in range(-1, 12)}), [gA]
+    except Exception:
+        pass
     # in-place algorithms: only the documented target may change
     yield 'MPS.orthonormalize', lambda a, mode=('left' if rng.random() < 0.5 else 'right'): a.orthonormalize(mode=mode), [psi]
     yield 'MPO.orthonormalize', lambda a: a.orthonormalize(mode='right'), [o]
@@ -108,6 +140,12 @@ def observe(fn, args):
     # conversions and decompositions may legitimately be views, e.g. as_vector() for L = 1 or the dummy-bond charges of qr)
     ra = arrays_in(res) if (hasattr(res, 'A') and hasattr(res, 'qD')) else []
     shares = any(np.shares_memory(x, y) for x in ra for a in args for y in arrays_in(a))
+    # operator graphs: mutable parts (node / edge objects and their lists) of different graphs must be distinct objects
+    graphs = [a for a in args if hasattr(a, 'nodes') and hasattr(a, 'edges')]
+    for i in range(len(graphs)):
+        for j in range(i + 1, len(graphs)):
+            if graph_parts(graphs[i]) & graph_parts(graphs[j]):
+                shares = True
     return mod, shares, None
 
 
@@ -181,10 +219,23 @@ def oracle_case(rng):
             res = fn(*args)
         except Exception as ex:
             continue
-        inplace = nm in ('MPS.orthonormalize', 'MPO.orthonormalize', 'MPS.compress')
+        inplace = nm in ('MPS.orthonormalize', 'MPO.orthonormalize', 'MPS.compress', 'OpGraph.add')
         for i, a in enumerate(args):
             if snap(a) != before[i] and not (inplace and i == 0):
                 return f'{nm}: argument {i} was modified by the call'
+        if nm == 'OpGraph.add':
+            # later in-place changes of the updated graph must not reach the other graph
+            g, other = args
+            try:
+                g.flip(); g.rename_node_id(g.nid_terminal[0], 10 ** 6)
+                for e in list(g.edges.values()):
+                    e.opics = [(i, 2 * c) for i, c in e.opics]
+            except Exception:
+                pass
+            if snap(other) != before[1]:
+                return 'OpGraph.add: the other graph changed after later in-place edits of the updated graph (shared state)'
+            if graph_parts(g) & graph_parts(other):
+                return 'OpGraph.add: the updated graph shares node/edge objects with the other graph'
         if inplace:
             continue
         what = mutate_result(rng, res)
